@@ -161,6 +161,9 @@ def parseVal (tok : String) : Option Val :=
   | ["s", h] =>
     if h == "-" then some (.ss [])
     else (h.splitOn ",").mapM (fun x => if x == "~" then some [] else unhex x) |>.map Val.ss
+  | ["y", h] =>
+    if h == "-" then some (.ts [])
+    else (h.splitOn ",").mapM (fun (x : String) => x.toNat?) |>.map Val.ts
   | _ => none
 
 def showVal : Val → String
@@ -171,6 +174,8 @@ def showVal : Val → String
   | .t bs => "t:" ++ hex bs
   | .ss [] => "s:-"
   | .ss strs => "s:" ++ ",".intercalate (strs.map (fun x => if x.isEmpty then "~" else hex x))
+  | .ts [] => "y:-"
+  | .ts types => "y:" ++ ",".intercalate (types.map toString)
 
 def codecPack (typ : String) (args : List String) : String :=
   match Gen.packCodecs.lookup typ, args.mapM parseVal with
